@@ -183,12 +183,16 @@ def main(cid, tier, seed, replay=None, as_json=False, nproc=None, max_confirm=4)
     exit_code = 0
     n_viol = 0
     known_seen = []
+    known_hits = {}
     harness_errors = []
     confirmed = 0
     for key, (case, f, count) in by_key.items():
         kf = match_known(known, cid, key)
         if kf is not None:
-            print("KNOWN-FINDING: property=%s %s [%s] (%d occurrence(s) this run)" % (cid, kf.get("what", ""), key, count))
+            kk = kf.get("key", "")
+            known_hits.setdefault(kk, [kf, 0, 0])
+            known_hits[kk][1] += 1
+            known_hits[kk][2] += count
             known_seen.append(key)
             continue
         rp = os.path.join(REPLAYS, "%s-%s.json" % (cid, jhash([key, case])))
@@ -213,6 +217,8 @@ def main(cid, tier, seed, replay=None, as_json=False, nproc=None, max_confirm=4)
         print("  case: %s" % label(case))
         exit_code = 1
 
+    for kk, (kf, nkeys, nocc) in known_hits.items():
+        print("KNOWN-FINDING: property=%s %s [listed key %s; %d failing point(s), %d occurrence(s) this run]" % (cid, kf.get("what", ""), kk, nkeys, nocc))
     if harness_errors and exit_code == 0:
         exit_code = 2
     for h in harness_errors:
